@@ -349,5 +349,17 @@ U_ROUND_T = [_us("u_subs_round_first_leaves_in_own_callback", _W_ROUND, "A remov
 CHECKS["C03"]["thorough"] += U_ROUND_T[:1]
 CHECKS["C09"]["thorough"] += U_ROUND_T
 
+_W_READ = "a reader thread's get_state() (inherent and Store-trait entry points, two reads in a row) placed at the loop's channel-level scheduling points; oracle: exactly the state left by the last completely reduced action (arbitrary per-action states from the summaries), reads never go back"
+S_READ = [_g(n, _W_READ, b) for n, b in [("s_read_k2_before_first", "2 actions; before the loop takes the first"), ("s_read_k2_after_taking_second", "2 actions; right after the second was taken"), ("s_read_k2_before_marker", "2 actions; before the shutdown marker is taken"), ("s_read_k3_after_taking_third", "3 actions; after the third was taken"), ("s_read_k1_after_marker", "1 action; after the marker was taken")]]
+CHECKS["C08"]["quick"] += S_READ[:3]
+CHECKS["C08"]["thorough"] += S_READ[3:]
+CHECKS["C08"]["bounds"] += "; plus a reader thread placed at the loop's recv / taken scheduling points (5 placements, K=1)"
+CHECKS["C08"]["outside"] = "reader threads between a phase boundary and the next scheduling point other than those listed; torn reads (excluded by the Mutex)"
+_W_BLOCK = "the reducer is held inside the reduce phase of the first action (queue was full before it got scheduled); a producer keeps dispatching while it would not have to wait; oracle: accepted-but-not-started actions never exceed the capacity, the producer got exactly the one slot the reducer freed, queue bound"
+S_BLOCK = [_g("s_block_cap2", _W_BLOCK, "capacity 2, up to 4 producer calls"), _g("s_block_cap1", _W_BLOCK, "capacity 1")]
+CHECKS["C05"]["quick"] += S_BLOCK[:1]
+CHECKS["C05"]["thorough"] += S_BLOCK[1:]
+CHECKS["C05"]["bounds"] += "; producer burst while the reducer is held in the first action (capacity 1..2)"
+
 HOOK_COMMITS = ['da8b80e', '8cd617e', '39efd23']
 NOT_APPLICABLE = {}
